@@ -1,10 +1,12 @@
 import Tally.Model.GetOrCreate
 import Tally.Spec.C09
+import TallyProofs.Props.C07
 /-!
 # C09 — concurrent first use creates one metric per identity
 
-For every interleaving of any number of threads calling the same getter.  (Subscopes: the same protocol
-with the registry shard lock — `Tally.Props.C07.one_live_scope_per_identity`.  Deliveries through the
+For every interleaving of any number of threads calling the same getter.  (Child scopes: the registry's
+get-or-create with its re-acquire paths is `Model.Registry`; the two theorems at the end of this file restate
+what C07 proves about it in C09's terms.  Deliveries through the
 unique object: `Tally.Props.C01`.  Data-race freedom in the sense of the Go memory model is not
 expressible here; the thorough tier runs the scenario under `-race`.)
 -/
@@ -163,5 +165,29 @@ theorem allocated_iff_created (es : List Ev) (s : State) (hr : run init es = som
 example : run init [.probe 1, .probe 2, .create 2, .create 1, .finish 1, .probe 1]
     = some { slot := some 0, allocs := 1, nextId := 1, pcs := [(1, .returned 0), (2, .returned 0)],
              results := [(1, 0), (1, 0), (2, 0)] } := by decide
+
+/-! ## child scopes (`registry.Subscope`): one live scope per identity
+
+`Model.Registry` (concurrent shard, raw and sanitized keys, report passes, Close, re-acquire of closed
+scopes).  For every interleaving of any number of threads: -/
+
+/-- all callers that asked — with any raw spellings of one identity — and whose results are still live
+received the very same scope -/
+theorem one_child_scope_per_identity {san : Nat → Nat} {s0 s : Registry.State} {es : List Registry.Ev}
+    (hsan : ∀ k, san (san k) = san k) (h0 : C07.Start san s0) (hr : Registry.run san s0 es = some s)
+    {t1 t2 r1 r2 sid1 sid2 : Nat} (hd1 : Registry.pcOf s t1 = .obtDone r1 sid1) (hd2 : Registry.pcOf s t2 = .obtDone r2 sid2)
+    (hsame : san r1 = san r2) {x1 x2 : Registry.ScopeS}
+    (hx1 : Registry.scopeOf s sid1 = some x1) (hl1 : x1.closed = false)
+    (hx2 : Registry.scopeOf s sid2 = some x2) (hl2 : x2.closed = false) : sid1 = sid2 :=
+  C07.obtain_same_identity_same_live_scope hsan h0 hr hd1 hd2 hsame hx1 hl1 hx2 hl2
+
+/-- … and what was recorded through any handle is never lost: every token is in exactly one of delivered,
+a scope's cell, a thread's pending delivery, dropped — and nothing recorded before the scope's Close is dropped -/
+theorem recorded_through_any_child_handle_is_kept {san : Nat → Nat} {s0 s : Registry.State} {es : List Registry.Ev}
+    (hsan : ∀ k, san (san k) = san k) (h0 : C07.Start san s0) (hr : Registry.run san s0 es = some s) :
+    ((s.delivered ++ Registry.allCells s ++ Registry.allPending s ++ s.dropped).map (·.id)).Nodup ∧
+    (s.delivered ++ Registry.allCells s ++ Registry.allPending s ++ s.dropped).length = s.nextToken ∧
+    ∀ tok ∈ s.dropped, tok.pre = false :=
+  ⟨(C07.token_conservation hsan h0 hr).1, (C07.token_conservation hsan h0 hr).2.2, C07.no_pre_token_dropped hsan h0 hr⟩
 
 end Tally.Props.C09
